@@ -59,6 +59,8 @@ func (e *engine) Load(ctx *LoadContext, buildContext *build.Context, filename st
 		debugImports: ctx.DebugImports,
 		debugPrint:   ctx.DebugPrint,
 		buildContext: buildContext,
+
+		shareCachedPackages: true,
 	})
 	irfile, pkg, err := convertAST(ctx, imp, filename, data)
 	if err != nil {
@@ -97,6 +99,8 @@ func (e *engine) LoadFromIR(ctx *LoadContext, buildContext *build.Context, filen
 		debugImports: ctx.DebugImports,
 		debugPrint:   ctx.DebugPrint,
 		buildContext: buildContext,
+
+		shareCachedPackages: true,
 	})
 	config := irLoaderConfig{
 		state:      e.state,
@@ -167,6 +171,17 @@ func (state *engineState) GetCachedPackage(pkgPath string) *types.Package {
 	pkg := state.pkgCache[pkgPath]
 	state.pkgCacheMu.RUnlock()
 	return pkg
+}
+
+// CachedPackages returns a copy of the package cache.
+func (state *engineState) CachedPackages() map[string]*types.Package {
+	state.pkgCacheMu.RLock()
+	defer state.pkgCacheMu.RUnlock()
+	packages := make(map[string]*types.Package, len(state.pkgCache))
+	for path, pkg := range state.pkgCache {
+		packages[path] = pkg
+	}
+	return packages
 }
 
 func (state *engineState) AddCachedPackage(pkgPath string, pkg *types.Package) {
